@@ -330,6 +330,10 @@ RULE = ("outcome causes (normal/custom stop, stop racing running workers, raise 
         "@catch_error handler, non-event return, failing user retry code, cancel and timeout at every quiescent "
         "point, waits with timeouts that are answered or time out on the way to the end) x all schedules; each maximal execution is checked for exactly one outcome, one matching terminal "
         "event, nothing after it and a terminating stream consumer; non-trivial = at least one schedule deviation")
+from vmc.tables import _ROUND6 as _R6  # noqa: E402
+
+RULE += _R6["C04"]
+
 
 
 def execute_reuse(ex: Any, mode: str) -> tuple[Any, list[Any]]:
